@@ -71,7 +71,7 @@ func (f *JSONParse) Call(s *slip.Scope, args slip.List, depth int) (result slip.
 		cb = func(j any) {
 			inst := flavor.MakeInstance().(*flavors.Instance)
 			inst.Any = fixNumbers(j)
-			channel <- inst
+			channel.Push(inst)
 		}
 	} else {
 		cb = func(j any) {
